@@ -179,6 +179,22 @@ pub open spec fn a1_value(s: Seq<u8>, nl: int) -> (u32, Option<u32>) {
 /// shape within the range where u32 arithmetic cannot overflow: <= 9 digits, <= 6 letters
 pub open spec fn a1_small(s: Seq<u8>, nl: int) -> bool { a1_shape(s, nl) && s.len() - nl <= 9 && nl <= 6 }
 
+/// `acc + digit * pow` and `pow * base` both fit in a u32
+pub open spec fn digit_fits(acc: u32, digit: u32, pow: u32, base: u32) -> bool {
+    acc + digit * pow <= u32::MAX && pow * base <= u32::MAX
+}
+// (same contract as in unit a1, re-verified here on the same text)
+//@@ fn src/xlsx/mod.rs add_digit props=C01,C15,C17 ret=r
+//@@ sig
+    ensures
+        //# C01,C15,C17.add_digit_exact
+        digit_fits(acc, digit, *old(pow), base) ==> r == Ok::<u32, XlsxError>((acc + digit * *old(pow)) as u32) && *final(pow) == *old(pow) * base,
+        //# C01,C15,C17.add_digit_overflow_rejected
+        !digit_fits(acc, digit, *old(pow), base) ==> r is Err,
+//@@ closure 0
+    -> (res: Option<u32>) ensures res == (if acc + d <= u32::MAX { Some((acc + d) as u32) } else { None })
+//@@ end
+
 //@@ fn src/xlsx/mod.rs get_row_and_optional_column props=C01,C15,C17 alias=small ret=r
 //@@ sig
     requires
@@ -229,7 +245,7 @@ pub open spec fn a1_small(s: Seq<u8>, nl: int) -> bool { a1_shape(s, nl) && s.le
                     assert(forall|nl: int| #[trigger] a1_shape(s, nl) ==> (nl <= n - nd - 1 ==> is_digit(s.subrange(nl, n)[n - nd - 1 - nl])));
                 }
             }
-//@@ before /row \+= /
+//@@ before /row = add_digit/
                     proof {
                         // this digit lies in the digit part of the (unique) split: at most 9 digits in all
                         assert(n - 1 - k >= nl0) by { if n - 1 - k < nl0 { assert(is_letter(s.subrange(0, nl0)[n - 1 - k])); } }
@@ -244,10 +260,13 @@ pub open spec fn a1_small(s: Seq<u8>, nl: int) -> bool { a1_shape(s, nl) && s.le
                                 if i > 0 { assert(tail(s, k + 1)[i] == tail(s, k)[i - 1]); }
                             }
                         }
+                        lemma_dec10_bound(tail(s, k + 1));
+                        lemma_pow_mono((nd + 1) as nat, 9);
+                        assert(digit_fits(row, (c - 0x30) as u32, pow, 10));
                     }
-//@@ after /pow \*= [^;]*;/#0of3
+//@@ after /row = add_digit\([^;]*;/
                     proof { nd = nd + 1; assert(mid(s, k + 1, nd) =~= Seq::<u8>::empty()); }
-//@@ before /col \+= /#0of2
+//@@ before /col = add_digit/#0of2
                 proof {
                     // at most 6 letters: this letter and those seen so far all lie left of the split
                     assert(n - nd == nl0);
@@ -265,8 +284,11 @@ pub open spec fn a1_small(s: Seq<u8>, nl: int) -> bool { a1_shape(s, nl) && s.le
                             if i > 0 { assert(mid(s, k + 1, nd)[i] == mid(s, k, nd)[i - 1]); }
                         }
                     }
+                    lemma_b26_bound(mid(s, k + 1, nd));
+                    lemma_pow_mono((k - nd + 1) as nat, 6);
+                    assert(digit_fits(col, letter_val(c) as u32, pow, 26));
                 }
-//@@ before /col \+= /#1of2
+//@@ before /col = add_digit/#1of2
                 proof {
                     // at most 6 letters: this letter and those seen so far all lie left of the split
                     assert(n - nd == nl0);
@@ -284,6 +306,9 @@ pub open spec fn a1_small(s: Seq<u8>, nl: int) -> bool { a1_shape(s, nl) && s.le
                             if i > 0 { assert(mid(s, k + 1, nd)[i] == mid(s, k, nd)[i - 1]); }
                         }
                     }
+                    lemma_b26_bound(mid(s, k + 1, nd));
+                    lemma_pow_mono((k - nd + 1) as nat, 6);
+                    assert(digit_fits(col, letter_val(c) as u32, pow, 26));
                 }
 //@@ after /if readrow \{/#1of3
                     proof {
